@@ -3,6 +3,7 @@
 package cl
 
 import (
+	"math"
 	"math/big"
 
 	"github.com/ohler55/slip"
@@ -53,7 +54,13 @@ func (f *Decf) Call(s *slip.Scope, args slip.List, depth int) (result slip.Objec
 		delta = args[1]
 		switch td := delta.(type) {
 		case slip.Fixnum:
-			delta = -td
+			if td == math.MinInt64 {
+				// The negation is not a fixnum.
+				var z big.Int
+				delta = (*slip.Bignum)(z.Neg(big.NewInt(int64(td))))
+			} else {
+				delta = -td
+			}
 		case slip.SingleFloat:
 			delta = -td
 		case slip.DoubleFloat:
